@@ -514,6 +514,11 @@ func (s *startupCoordinator) authenticateHandshake(ctx context.Context, authFram
 			}
 			return nil
 		case *authChallengeFrame:
+			if challenger == nil {
+				// the authenticator ended the exchange with its first response (PasswordAuthenticator
+				// returns no follow-up authenticator): a further challenge cannot be answered
+				return fmt.Errorf("gocql: unexpected AUTH_CHALLENGE: authenticator %T does not continue the exchange", s.conn.auth)
+			}
 			resp, challenger, err = challenger.Challenge(v.data)
 			if err != nil {
 				return err
